@@ -2097,10 +2097,22 @@ def c11_parked_thread_case(flag_at_entry):
             self.entered = threading.Event()
             self.release = threading.Event()
 
+        def _park(self):
+            if not self.entered.is_set():       # once, at whichever way into the table the encoder takes first
+                self.entered.set()
+                self.release.wait(10)
+
         def items(self):
-            self.entered.set()
-            self.release.wait(10)
+            self._park()
             return super().items()
+
+        def keys(self):
+            self._park()
+            return super().keys()
+
+        def __iter__(self):
+            self._park()
+            return super().__iter__()
     old = encode.DEPRECATED_RABBITMQ_SUPPORT
     bad = None
     try:
@@ -2109,8 +2121,8 @@ def c11_parked_thread_case(flag_at_entry):
         out = {}
         th = threading.Thread(target=lambda: out.setdefault('r', catching(encode.field_table, parked)))
         th.start()
-        if not parked.entered.wait(10):
-            parked.release.set()
+        if not parked.entered.wait(2):
+            parked.release.set()        # the encoder reads the table some other way: nothing is parked, nothing to examine
             th.join(10)
             return None
         for now in (not flag_at_entry, flag_at_entry, not flag_at_entry):
